@@ -4,7 +4,8 @@
    it is now (flip test on the Cartesian parts), [old_rule = true] the original flip rule.
    Only statements, each closed by [exact <lemma>] and followed by Print Assumptions. *)
 From Coq Require Import Reals ZArith List Bool Arith Lra Lia.
-From Romea Require Import Num NumR NormalsModel NormalsProofs.
+From Romea Require Import Num NumR NormalsModel NormalsProofs SrcEigen SrcNormalsLib SrcTieC09 NormalsRotation.
+From Romea.gen Require Import SrcNormals.
 Import ListNotations.
 Local Open Scope R_scope.
 
@@ -101,10 +102,10 @@ Print Assumptions C09_planar_exact.
 (* rotation equivariance, at the level of the covariance matrix: if C' = Rm C Rm^T for a rotation Rm and the
    smallest eigenvalue of C is simple, any two results meeting the contract have lam'_0 = lam_0 and the first
    eigenvector of C' is +- Rm (first eigenvector of C).
-   PARTIAL: a statement about matrices only.  The two missing links to the model — (a) the covariance of the
-   rotated neighbours is Rm C Rm^T, (b) the flip selects the same sign — are C09_covariance_rotated and
-   C09_rotation_equivariance below. *)
-Theorem C09_rotation_equivariance_partial : forall dim Rm C C' lam cols lam' cols',
+   (Formerly C09_rotation_least_variance_direction: a statement about matrices only.  It is kept as the linear-algebra core; the
+   two links to the model that were missing — (a) the covariance of the rotated neighbours is Rm C Rm^T, (b) what the flip
+   does to the sign — are C09_covariance_rotated and C09_rotation_equivariance below, so nothing is partial any more.) *)
+Theorem C09_rotation_least_variance_direction : forall dim Rm C C' lam cols lam' cols',
   dim = 2%nat \/ dim = 3%nat ->
   is_rotation dim Rm -> conj_by dim Rm C C' ->
   eig_contract dim C (lam, cols) -> eig_contract dim C' (lam', cols') ->
@@ -112,8 +113,8 @@ Theorem C09_rotation_equivariance_partial : forall dim Rm C C' lam cols lam' col
   vcoord ROps lam' 0 = vcoord ROps lam 0 /\
   (nth 0 cols' [] = rot_apply dim Rm (nth 0 cols []) \/
    nth 0 cols' [] = vneg ROps (rot_apply dim Rm (nth 0 cols []))).
-Proof. exact rotation_equivariance_partial. Qed.
-Print Assumptions C09_rotation_equivariance_partial.
+Proof. exact rotation_equivariance_partial. Qed.   (* the lemma keeps its historical name in NormalsProofs.v *)
+Print Assumptions C09_rotation_least_variance_direction.
 
 (* (a) two-pass mean/covariance is equivariant: [rot_point dim Rm q] applies Rm to the first dim entries of q and
    keeps the rest (w).  Holds for any matrix Rm. *)
@@ -123,10 +124,11 @@ Theorem C09_covariance_rotated : forall dim size Rm nb,
 Proof. exact covariance_rotated. Qed.
 Print Assumptions C09_covariance_rotated.
 
-(* the full property: rotating the neighbours and the point about the sensor (origin) rotates the normal and
-   leaves lambda_0 and the curvature unchanged — whenever the normal is determined at all: lambda_0 simple and
-   n . p <> 0 (for n . p = 0 the code keeps the sign the solver returned, which the contract does not fix).
-   The caller-supplied contents of the two normals may differ. *)
+(* the full property: rotating the neighbours and the point about the sensor (origin) leaves lambda_0 and the curvature
+   unchanged and turns the normal into +- the rotated normal whenever the normal is determined up to sign at all (lambda_0
+   simple); the sign is + whenever n . p <> 0.  For n . p = 0 the code keeps the sign the solver returned, which the
+   contract does not fix: there only the +- statement holds.  The caller-supplied contents of the two normals may differ.
+   (Strengthened: the former statement had n . p <> 0 as a premise of everything.) *)
 Theorem C09_rotation_equivariance : forall eig dim size p nb normal_in normal_in' Rm,
   dim = 2%nat \/ dim = 3%nat -> is_rotation dim Rm ->
   (dim <= size)%nat -> (forall q, In q nb -> length q = size) ->
@@ -137,12 +139,450 @@ Theorem C09_rotation_equivariance : forall eig dim size p nb normal_in normal_in
   let e := estimate_point ROps eig false dim size p nb normal_in in
   let e' := estimate_point ROps eig false dim size p' nb' normal_in' in
   vcoord ROps (e_lambda e) 0 < vcoord ROps (e_lambda e) 1 ->
-  vdot ROps (firstn dim (e_normal e)) (firstn dim p) <> 0 ->
-  firstn dim (e_normal e') = rot_apply dim Rm (firstn dim (e_normal e)) /\
+  (firstn dim (e_normal e') = rot_apply dim Rm (firstn dim (e_normal e)) \/
+   firstn dim (e_normal e') = vneg ROps (rot_apply dim Rm (firstn dim (e_normal e)))) /\
+  (vdot ROps (firstn dim (e_normal e)) (firstn dim p) <> 0 ->
+   firstn dim (e_normal e') = rot_apply dim Rm (firstn dim (e_normal e))) /\
   vcoord ROps (e_lambda e') 0 = vcoord ROps (e_lambda e) 0 /\
   e_curvature e' = e_curvature e.
-Proof. exact rotation_equivariance. Qed.
+Proof. exact rotation_equivariance_any_sign. Qed.
 Print Assumptions C09_rotation_equivariance.
+
+
+(* ================================================================================================================
+   SYNTACTIC SOURCE TIE.  coq/gen/SrcNormals.v is regenerated on every run by translate/tr_C09_normals.py from the clang AST
+   of src/pointset/algorithms/NormalAndCurvatureEstimation.cpp (instantiations V2 = Vector2d, V3 = Vector3d,
+   H2 = HomogeneousCoordinates2d, H3 = HomogeneousCoordinates3d; a point is the tuple of its components, [l2]/[l3]/[l4] turn
+   it into the model's list).  The kd-tree query is the abstract function [kd_find] (neighbour index list) and
+   Eigen::SelfAdjointEigenSolver the oracle [eig], as in the model; their contracts stay hypotheses.
+   The theorems below hold for EVERY numeric dictionary N (reals of the theorems above, binary64 / binary32 of the
+   correspondence run): the generated term and the model perform the same operations in the same order. *)
+
+(* planeEstimation_ : the k neighbour indexes, then the eigen-solver applied to the model's two-pass covariance of those
+   neighbours (mean over the full vectors divided by k, DIM x DIM block), eigenvalues / eigenvectors copied into the members *)
+Theorem C09_source_tie_plane_estimation : forall (T : Type) (N : NumOps T) (K : Type) (eig : list (list T) -> list T * list (list T)),
+  (forall (kd_find : K -> T * T -> Z -> list Z) points kd idx k,
+    (0 <= k)%Z -> length (kd_find kd (points idx) k) = Z.to_nat k ->
+    src_planeEstimation_V2 N kd_find eig points kd idx k =
+      let nbi := kd_find kd (points idx) k in
+      let es := eig (covariance N 2 2 (map (fun i => l2 (points i)) nbi)) in
+      (nbi, es, eig_val N es 0, eig_val N es 1, eig_vec N es 0 0, eig_vec N es 0 1, eig_vec N es 1 0, eig_vec N es 1 1)) /\
+  (forall (kd_find : K -> T * T * T -> Z -> list Z) points kd idx k,
+    (0 <= k)%Z -> length (kd_find kd (points idx) k) = Z.to_nat k ->
+    src_planeEstimation_V3 N kd_find eig points kd idx k =
+      let nbi := kd_find kd (points idx) k in
+      let es := eig (covariance N 3 3 (map (fun i => l3 (points i)) nbi)) in
+      (nbi, es, eig_val N es 0, eig_val N es 1, eig_val N es 2, eig_vec N es 0 0, eig_vec N es 0 1, eig_vec N es 0 2, eig_vec N es 1 0, eig_vec N es 1 1, eig_vec N es 1 2, eig_vec N es 2 0, eig_vec N es 2 1, eig_vec N es 2 2)) /\
+  (forall (kd_find : K -> T * T * T -> Z -> list Z) points kd idx k,
+    (0 <= k)%Z -> length (kd_find kd (points idx) k) = Z.to_nat k ->
+    src_planeEstimation_H2 N kd_find eig points kd idx k =
+      let nbi := kd_find kd (points idx) k in
+      let es := eig (covariance N 2 3 (map (fun i => l3 (points i)) nbi)) in
+      (nbi, es, eig_val N es 0, eig_val N es 1, eig_vec N es 0 0, eig_vec N es 0 1, eig_vec N es 1 0, eig_vec N es 1 1)) /\
+  (forall (kd_find : K -> T * T * T * T -> Z -> list Z) points kd idx k,
+    (0 <= k)%Z -> length (kd_find kd (points idx) k) = Z.to_nat k ->
+    src_planeEstimation_H3 N kd_find eig points kd idx k =
+      let nbi := kd_find kd (points idx) k in
+      let es := eig (covariance N 3 4 (map (fun i => l4 (points i)) nbi)) in
+      (nbi, es, eig_val N es 0, eig_val N es 1, eig_val N es 2, eig_vec N es 0 0, eig_vec N es 0 1, eig_vec N es 0 2, eig_vec N es 1 0, eig_vec N es 1 1, eig_vec N es 1 2, eig_vec N es 2 0, eig_vec N es 2 1, eig_vec N es 2 2)).
+Proof.
+  intros T N K eig. repeat split; intros.
+  - apply tie_plane_V2; assumption.
+  - apply tie_plane_V3; assumption.
+  - apply tie_plane_H2; assumption.
+  - apply tie_plane_H3; assumption.
+Qed.
+Print Assumptions C09_source_tie_plane_estimation.
+
+(* compute(points, kdTree, normals, curvatures, normalsReliability): entry j of the three outputs is the model's estimate_point
+   (repaired flip rule) at point j with the neighbours the kd-tree returns for it and the caller's normal (whose w is kept);
+   entries outside 0..size-1 are untouched.  [eig_shape dim r]: r has dim eigenvalues and its first eigenvector dim entries
+   (part of the eigen-solver contract).  NormLits N: the literal 0 is the dictionary's zero and x * (-1) = -x. *)
+Theorem C09_source_tie_compute_V2 : (* Eigen::Vector2d *)
+  forall (T : Type) (N : NumOps T), NormLits N -> forall (K : Type) (eig : list (list T) -> list T * list (list T))
+    (kd_find : K -> T * T -> Z -> list Z) points size kd normals curvatures reliab k nbi0 es0 a0 a1 v00 v01 v10 v11,
+  (0 <= k)%Z -> (0 <= size)%Z -> (forall p, length (kd_find kd p k) = Z.to_nat k) ->
+  (forall j, (0 <= j < size)%Z ->
+     eig_shape 2 (eig (covariance N 2 2 (map (fun i => l2 (points i)) (kd_find kd (points j) k))))) ->
+  let '(nrm, cv, rl, _, _, _, _, _, _, _, _) :=
+    src_compute_kd_ncr_V2 N kd_find eig points size kd normals curvatures reliab k nbi0 es0 a0 a1 v00 v01 v10 v11 in
+  forall j,
+    ((0 <= j < size)%Z ->
+     let e := estimate_point N eig false 2 2 (l2 (points j)) (map (fun i => l2 (points i)) (kd_find kd (points j) k)) (l2 (normals j)) in
+     (l2 (nrm j), cv j, rl j) = (e_normal e, e_curvature e, e_reliability e)) /\
+    (~ (0 <= j < size)%Z -> (l2 (nrm j), cv j, rl j) = (l2 (normals j), curvatures j, reliab j)).
+Proof. exact (@tie_compute_kd_ncr_V2). Qed.
+Print Assumptions C09_source_tie_compute_V2.
+
+Theorem C09_source_tie_compute_V3 : (* Eigen::Vector3d *)
+  forall (T : Type) (N : NumOps T), NormLits N -> forall (K : Type) (eig : list (list T) -> list T * list (list T))
+    (kd_find : K -> T * T * T -> Z -> list Z) points size kd normals curvatures reliab k nbi0 es0 a0 a1 a2 v00 v01 v02 v10 v11 v12 v20 v21 v22,
+  (0 <= k)%Z -> (0 <= size)%Z -> (forall p, length (kd_find kd p k) = Z.to_nat k) ->
+  (forall j, (0 <= j < size)%Z ->
+     eig_shape 3 (eig (covariance N 3 3 (map (fun i => l3 (points i)) (kd_find kd (points j) k))))) ->
+  let '(nrm, cv, rl, _, _, _, _, _, _, _, _, _, _, _, _, _, _) :=
+    src_compute_kd_ncr_V3 N kd_find eig points size kd normals curvatures reliab k nbi0 es0 a0 a1 a2 v00 v01 v02 v10 v11 v12 v20 v21 v22 in
+  forall j,
+    ((0 <= j < size)%Z ->
+     let e := estimate_point N eig false 3 3 (l3 (points j)) (map (fun i => l3 (points i)) (kd_find kd (points j) k)) (l3 (normals j)) in
+     (l3 (nrm j), cv j, rl j) = (e_normal e, e_curvature e, e_reliability e)) /\
+    (~ (0 <= j < size)%Z -> (l3 (nrm j), cv j, rl j) = (l3 (normals j), curvatures j, reliab j)).
+Proof. exact (@tie_compute_kd_ncr_V3). Qed.
+Print Assumptions C09_source_tie_compute_V3.
+
+Theorem C09_source_tie_compute_H2 : (* HomogeneousCoordinates2d *)
+  forall (T : Type) (N : NumOps T), NormLits N -> forall (K : Type) (eig : list (list T) -> list T * list (list T))
+    (kd_find : K -> T * T * T -> Z -> list Z) points size kd normals curvatures reliab k nbi0 es0 a0 a1 v00 v01 v10 v11,
+  (0 <= k)%Z -> (0 <= size)%Z -> (forall p, length (kd_find kd p k) = Z.to_nat k) ->
+  (forall j, (0 <= j < size)%Z ->
+     eig_shape 2 (eig (covariance N 2 3 (map (fun i => l3 (points i)) (kd_find kd (points j) k))))) ->
+  let '(nrm, cv, rl, _, _, _, _, _, _, _, _) :=
+    src_compute_kd_ncr_H2 N kd_find eig points size kd normals curvatures reliab k nbi0 es0 a0 a1 v00 v01 v10 v11 in
+  forall j,
+    ((0 <= j < size)%Z ->
+     let e := estimate_point N eig false 2 3 (l3 (points j)) (map (fun i => l3 (points i)) (kd_find kd (points j) k)) (l3 (normals j)) in
+     (l3 (nrm j), cv j, rl j) = (e_normal e, e_curvature e, e_reliability e)) /\
+    (~ (0 <= j < size)%Z -> (l3 (nrm j), cv j, rl j) = (l3 (normals j), curvatures j, reliab j)).
+Proof. exact (@tie_compute_kd_ncr_H2). Qed.
+Print Assumptions C09_source_tie_compute_H2.
+
+Theorem C09_source_tie_compute_H3 : (* HomogeneousCoordinates3d *)
+  forall (T : Type) (N : NumOps T), NormLits N -> forall (K : Type) (eig : list (list T) -> list T * list (list T))
+    (kd_find : K -> T * T * T * T -> Z -> list Z) points size kd normals curvatures reliab k nbi0 es0 a0 a1 a2 v00 v01 v02 v10 v11 v12 v20 v21 v22,
+  (0 <= k)%Z -> (0 <= size)%Z -> (forall p, length (kd_find kd p k) = Z.to_nat k) ->
+  (forall j, (0 <= j < size)%Z ->
+     eig_shape 3 (eig (covariance N 3 4 (map (fun i => l4 (points i)) (kd_find kd (points j) k))))) ->
+  let '(nrm, cv, rl, _, _, _, _, _, _, _, _, _, _, _, _, _, _) :=
+    src_compute_kd_ncr_H3 N kd_find eig points size kd normals curvatures reliab k nbi0 es0 a0 a1 a2 v00 v01 v02 v10 v11 v12 v20 v21 v22 in
+  forall j,
+    ((0 <= j < size)%Z ->
+     let e := estimate_point N eig false 3 4 (l4 (points j)) (map (fun i => l4 (points i)) (kd_find kd (points j) k)) (l4 (normals j)) in
+     (l4 (nrm j), cv j, rl j) = (e_normal e, e_curvature e, e_reliability e)) /\
+    (~ (0 <= j < size)%Z -> (l4 (nrm j), cv j, rl j) = (l4 (normals j), curvatures j, reliab j)).
+Proof. exact (@tie_compute_kd_ncr_H3). Qed.
+Print Assumptions C09_source_tie_compute_H3.
+
+(* the overloads without reliability / without curvature: the same statement on the outputs they have *)
+Theorem C09_source_tie_compute_fewer_outputs :
+  (forall (T : Type) (N : NumOps T), NormLits N -> forall (K : Type) (eig : list (list T) -> list T * list (list T))
+    (kd_find : K -> T * T -> Z -> list Z) points size kd normals k nbi0 es0 a0 a1 v00 v01 v10 v11,
+  (0 <= k)%Z -> (0 <= size)%Z -> (forall p, length (kd_find kd p k) = Z.to_nat k) ->
+  (forall j, (0 <= j < size)%Z ->
+     eig_shape 2 (eig (covariance N 2 2 (map (fun i => l2 (points i)) (kd_find kd (points j) k))))) ->
+  let '(nrm, _, _, _, _, _, _, _, _) :=
+    src_compute_kd_n_V2 N kd_find eig points size kd normals k nbi0 es0 a0 a1 v00 v01 v10 v11 in
+  forall j,
+    ((0 <= j < size)%Z ->
+     let e := estimate_point N eig false 2 2 (l2 (points j)) (map (fun i => l2 (points i)) (kd_find kd (points j) k)) (l2 (normals j)) in
+     l2 (nrm j) = e_normal e) /\
+    (~ (0 <= j < size)%Z -> l2 (nrm j) = l2 (normals j))) /\
+  (forall (T : Type) (N : NumOps T), NormLits N -> forall (K : Type) (eig : list (list T) -> list T * list (list T))
+    (kd_find : K -> T * T -> Z -> list Z) points size kd normals curvatures k nbi0 es0 a0 a1 v00 v01 v10 v11,
+  (0 <= k)%Z -> (0 <= size)%Z -> (forall p, length (kd_find kd p k) = Z.to_nat k) ->
+  (forall j, (0 <= j < size)%Z ->
+     eig_shape 2 (eig (covariance N 2 2 (map (fun i => l2 (points i)) (kd_find kd (points j) k))))) ->
+  let '(nrm, cv, _, _, _, _, _, _, _, _) :=
+    src_compute_kd_nc_V2 N kd_find eig points size kd normals curvatures k nbi0 es0 a0 a1 v00 v01 v10 v11 in
+  forall j,
+    ((0 <= j < size)%Z ->
+     let e := estimate_point N eig false 2 2 (l2 (points j)) (map (fun i => l2 (points i)) (kd_find kd (points j) k)) (l2 (normals j)) in
+     (l2 (nrm j), cv j) = (e_normal e, e_curvature e)) /\
+    (~ (0 <= j < size)%Z -> (l2 (nrm j), cv j) = (l2 (normals j), curvatures j))) /\
+  (forall (T : Type) (N : NumOps T), NormLits N -> forall (K : Type) (eig : list (list T) -> list T * list (list T))
+    (kd_find : K -> T * T * T -> Z -> list Z) points size kd normals k nbi0 es0 a0 a1 a2 v00 v01 v02 v10 v11 v12 v20 v21 v22,
+  (0 <= k)%Z -> (0 <= size)%Z -> (forall p, length (kd_find kd p k) = Z.to_nat k) ->
+  (forall j, (0 <= j < size)%Z ->
+     eig_shape 3 (eig (covariance N 3 3 (map (fun i => l3 (points i)) (kd_find kd (points j) k))))) ->
+  let '(nrm, _, _, _, _, _, _, _, _, _, _, _, _, _, _) :=
+    src_compute_kd_n_V3 N kd_find eig points size kd normals k nbi0 es0 a0 a1 a2 v00 v01 v02 v10 v11 v12 v20 v21 v22 in
+  forall j,
+    ((0 <= j < size)%Z ->
+     let e := estimate_point N eig false 3 3 (l3 (points j)) (map (fun i => l3 (points i)) (kd_find kd (points j) k)) (l3 (normals j)) in
+     l3 (nrm j) = e_normal e) /\
+    (~ (0 <= j < size)%Z -> l3 (nrm j) = l3 (normals j))) /\
+  (forall (T : Type) (N : NumOps T), NormLits N -> forall (K : Type) (eig : list (list T) -> list T * list (list T))
+    (kd_find : K -> T * T * T -> Z -> list Z) points size kd normals curvatures k nbi0 es0 a0 a1 a2 v00 v01 v02 v10 v11 v12 v20 v21 v22,
+  (0 <= k)%Z -> (0 <= size)%Z -> (forall p, length (kd_find kd p k) = Z.to_nat k) ->
+  (forall j, (0 <= j < size)%Z ->
+     eig_shape 3 (eig (covariance N 3 3 (map (fun i => l3 (points i)) (kd_find kd (points j) k))))) ->
+  let '(nrm, cv, _, _, _, _, _, _, _, _, _, _, _, _, _, _) :=
+    src_compute_kd_nc_V3 N kd_find eig points size kd normals curvatures k nbi0 es0 a0 a1 a2 v00 v01 v02 v10 v11 v12 v20 v21 v22 in
+  forall j,
+    ((0 <= j < size)%Z ->
+     let e := estimate_point N eig false 3 3 (l3 (points j)) (map (fun i => l3 (points i)) (kd_find kd (points j) k)) (l3 (normals j)) in
+     (l3 (nrm j), cv j) = (e_normal e, e_curvature e)) /\
+    (~ (0 <= j < size)%Z -> (l3 (nrm j), cv j) = (l3 (normals j), curvatures j))) /\
+  (forall (T : Type) (N : NumOps T), NormLits N -> forall (K : Type) (eig : list (list T) -> list T * list (list T))
+    (kd_find : K -> T * T * T -> Z -> list Z) points size kd normals k nbi0 es0 a0 a1 v00 v01 v10 v11,
+  (0 <= k)%Z -> (0 <= size)%Z -> (forall p, length (kd_find kd p k) = Z.to_nat k) ->
+  (forall j, (0 <= j < size)%Z ->
+     eig_shape 2 (eig (covariance N 2 3 (map (fun i => l3 (points i)) (kd_find kd (points j) k))))) ->
+  let '(nrm, _, _, _, _, _, _, _, _) :=
+    src_compute_kd_n_H2 N kd_find eig points size kd normals k nbi0 es0 a0 a1 v00 v01 v10 v11 in
+  forall j,
+    ((0 <= j < size)%Z ->
+     let e := estimate_point N eig false 2 3 (l3 (points j)) (map (fun i => l3 (points i)) (kd_find kd (points j) k)) (l3 (normals j)) in
+     l3 (nrm j) = e_normal e) /\
+    (~ (0 <= j < size)%Z -> l3 (nrm j) = l3 (normals j))) /\
+  (forall (T : Type) (N : NumOps T), NormLits N -> forall (K : Type) (eig : list (list T) -> list T * list (list T))
+    (kd_find : K -> T * T * T -> Z -> list Z) points size kd normals curvatures k nbi0 es0 a0 a1 v00 v01 v10 v11,
+  (0 <= k)%Z -> (0 <= size)%Z -> (forall p, length (kd_find kd p k) = Z.to_nat k) ->
+  (forall j, (0 <= j < size)%Z ->
+     eig_shape 2 (eig (covariance N 2 3 (map (fun i => l3 (points i)) (kd_find kd (points j) k))))) ->
+  let '(nrm, cv, _, _, _, _, _, _, _, _) :=
+    src_compute_kd_nc_H2 N kd_find eig points size kd normals curvatures k nbi0 es0 a0 a1 v00 v01 v10 v11 in
+  forall j,
+    ((0 <= j < size)%Z ->
+     let e := estimate_point N eig false 2 3 (l3 (points j)) (map (fun i => l3 (points i)) (kd_find kd (points j) k)) (l3 (normals j)) in
+     (l3 (nrm j), cv j) = (e_normal e, e_curvature e)) /\
+    (~ (0 <= j < size)%Z -> (l3 (nrm j), cv j) = (l3 (normals j), curvatures j))) /\
+  (forall (T : Type) (N : NumOps T), NormLits N -> forall (K : Type) (eig : list (list T) -> list T * list (list T))
+    (kd_find : K -> T * T * T * T -> Z -> list Z) points size kd normals k nbi0 es0 a0 a1 a2 v00 v01 v02 v10 v11 v12 v20 v21 v22,
+  (0 <= k)%Z -> (0 <= size)%Z -> (forall p, length (kd_find kd p k) = Z.to_nat k) ->
+  (forall j, (0 <= j < size)%Z ->
+     eig_shape 3 (eig (covariance N 3 4 (map (fun i => l4 (points i)) (kd_find kd (points j) k))))) ->
+  let '(nrm, _, _, _, _, _, _, _, _, _, _, _, _, _, _) :=
+    src_compute_kd_n_H3 N kd_find eig points size kd normals k nbi0 es0 a0 a1 a2 v00 v01 v02 v10 v11 v12 v20 v21 v22 in
+  forall j,
+    ((0 <= j < size)%Z ->
+     let e := estimate_point N eig false 3 4 (l4 (points j)) (map (fun i => l4 (points i)) (kd_find kd (points j) k)) (l4 (normals j)) in
+     l4 (nrm j) = e_normal e) /\
+    (~ (0 <= j < size)%Z -> l4 (nrm j) = l4 (normals j))) /\
+  (forall (T : Type) (N : NumOps T), NormLits N -> forall (K : Type) (eig : list (list T) -> list T * list (list T))
+    (kd_find : K -> T * T * T * T -> Z -> list Z) points size kd normals curvatures k nbi0 es0 a0 a1 a2 v00 v01 v02 v10 v11 v12 v20 v21 v22,
+  (0 <= k)%Z -> (0 <= size)%Z -> (forall p, length (kd_find kd p k) = Z.to_nat k) ->
+  (forall j, (0 <= j < size)%Z ->
+     eig_shape 3 (eig (covariance N 3 4 (map (fun i => l4 (points i)) (kd_find kd (points j) k))))) ->
+  let '(nrm, cv, _, _, _, _, _, _, _, _, _, _, _, _, _, _) :=
+    src_compute_kd_nc_H3 N kd_find eig points size kd normals curvatures k nbi0 es0 a0 a1 a2 v00 v01 v02 v10 v11 v12 v20 v21 v22 in
+  forall j,
+    ((0 <= j < size)%Z ->
+     let e := estimate_point N eig false 3 4 (l4 (points j)) (map (fun i => l4 (points i)) (kd_find kd (points j) k)) (l4 (normals j)) in
+     (l4 (nrm j), cv j) = (e_normal e, e_curvature e)) /\
+    (~ (0 <= j < size)%Z -> (l4 (nrm j), cv j) = (l4 (normals j), curvatures j))).
+Proof.
+  repeat split.
+  - exact (@tie_compute_kd_n_V2).
+  - exact (@tie_compute_kd_nc_V2).
+  - exact (@tie_compute_kd_n_V3).
+  - exact (@tie_compute_kd_nc_V3).
+  - exact (@tie_compute_kd_n_H2).
+  - exact (@tie_compute_kd_nc_H2).
+  - exact (@tie_compute_kd_n_H3).
+  - exact (@tie_compute_kd_nc_H3).
+Qed.
+Print Assumptions C09_source_tie_compute_fewer_outputs.
+
+(* the overloads that build their own kd-tree: [kd_build size points], then the overload above *)
+Theorem C09_source_tie_compute_own_kdtree : forall (T : Type) (N : NumOps T) (K : Type) (eig : list (list T) -> list T * list (list T)),
+  (forall (kd_find : K -> T * T -> Z -> list Z) kd_build points size normals k nbi0 es0 a0 a1 v00 v01 v10 v11,
+    src_compute_n_V2 N kd_find kd_build eig points size normals k nbi0 es0 a0 a1 v00 v01 v10 v11 =
+    src_compute_kd_n_V2 N kd_find eig points size (kd_build size points) normals k nbi0 es0 a0 a1 v00 v01 v10 v11) /\
+  (forall (kd_find : K -> T * T -> Z -> list Z) kd_build points size normals curvatures k nbi0 es0 a0 a1 v00 v01 v10 v11,
+    src_compute_nc_V2 N kd_find kd_build eig points size normals curvatures k nbi0 es0 a0 a1 v00 v01 v10 v11 =
+    src_compute_kd_nc_V2 N kd_find eig points size (kd_build size points) normals curvatures k nbi0 es0 a0 a1 v00 v01 v10 v11) /\
+  (forall (kd_find : K -> T * T -> Z -> list Z) kd_build points size normals curvatures reliab k nbi0 es0 a0 a1 v00 v01 v10 v11,
+    src_compute_ncr_V2 N kd_find kd_build eig points size normals curvatures reliab k nbi0 es0 a0 a1 v00 v01 v10 v11 =
+    src_compute_kd_ncr_V2 N kd_find eig points size (kd_build size points) normals curvatures reliab k nbi0 es0 a0 a1 v00 v01 v10 v11) /\
+  (forall (kd_find : K -> T * T * T -> Z -> list Z) kd_build points size normals k nbi0 es0 a0 a1 a2 v00 v01 v02 v10 v11 v12 v20 v21 v22,
+    src_compute_n_V3 N kd_find kd_build eig points size normals k nbi0 es0 a0 a1 a2 v00 v01 v02 v10 v11 v12 v20 v21 v22 =
+    src_compute_kd_n_V3 N kd_find eig points size (kd_build size points) normals k nbi0 es0 a0 a1 a2 v00 v01 v02 v10 v11 v12 v20 v21 v22) /\
+  (forall (kd_find : K -> T * T * T -> Z -> list Z) kd_build points size normals curvatures k nbi0 es0 a0 a1 a2 v00 v01 v02 v10 v11 v12 v20 v21 v22,
+    src_compute_nc_V3 N kd_find kd_build eig points size normals curvatures k nbi0 es0 a0 a1 a2 v00 v01 v02 v10 v11 v12 v20 v21 v22 =
+    src_compute_kd_nc_V3 N kd_find eig points size (kd_build size points) normals curvatures k nbi0 es0 a0 a1 a2 v00 v01 v02 v10 v11 v12 v20 v21 v22) /\
+  (forall (kd_find : K -> T * T * T -> Z -> list Z) kd_build points size normals curvatures reliab k nbi0 es0 a0 a1 a2 v00 v01 v02 v10 v11 v12 v20 v21 v22,
+    src_compute_ncr_V3 N kd_find kd_build eig points size normals curvatures reliab k nbi0 es0 a0 a1 a2 v00 v01 v02 v10 v11 v12 v20 v21 v22 =
+    src_compute_kd_ncr_V3 N kd_find eig points size (kd_build size points) normals curvatures reliab k nbi0 es0 a0 a1 a2 v00 v01 v02 v10 v11 v12 v20 v21 v22) /\
+  (forall (kd_find : K -> T * T * T -> Z -> list Z) kd_build points size normals k nbi0 es0 a0 a1 v00 v01 v10 v11,
+    src_compute_n_H2 N kd_find kd_build eig points size normals k nbi0 es0 a0 a1 v00 v01 v10 v11 =
+    src_compute_kd_n_H2 N kd_find eig points size (kd_build size points) normals k nbi0 es0 a0 a1 v00 v01 v10 v11) /\
+  (forall (kd_find : K -> T * T * T -> Z -> list Z) kd_build points size normals curvatures k nbi0 es0 a0 a1 v00 v01 v10 v11,
+    src_compute_nc_H2 N kd_find kd_build eig points size normals curvatures k nbi0 es0 a0 a1 v00 v01 v10 v11 =
+    src_compute_kd_nc_H2 N kd_find eig points size (kd_build size points) normals curvatures k nbi0 es0 a0 a1 v00 v01 v10 v11) /\
+  (forall (kd_find : K -> T * T * T -> Z -> list Z) kd_build points size normals curvatures reliab k nbi0 es0 a0 a1 v00 v01 v10 v11,
+    src_compute_ncr_H2 N kd_find kd_build eig points size normals curvatures reliab k nbi0 es0 a0 a1 v00 v01 v10 v11 =
+    src_compute_kd_ncr_H2 N kd_find eig points size (kd_build size points) normals curvatures reliab k nbi0 es0 a0 a1 v00 v01 v10 v11) /\
+  (forall (kd_find : K -> T * T * T * T -> Z -> list Z) kd_build points size normals k nbi0 es0 a0 a1 a2 v00 v01 v02 v10 v11 v12 v20 v21 v22,
+    src_compute_n_H3 N kd_find kd_build eig points size normals k nbi0 es0 a0 a1 a2 v00 v01 v02 v10 v11 v12 v20 v21 v22 =
+    src_compute_kd_n_H3 N kd_find eig points size (kd_build size points) normals k nbi0 es0 a0 a1 a2 v00 v01 v02 v10 v11 v12 v20 v21 v22) /\
+  (forall (kd_find : K -> T * T * T * T -> Z -> list Z) kd_build points size normals curvatures k nbi0 es0 a0 a1 a2 v00 v01 v02 v10 v11 v12 v20 v21 v22,
+    src_compute_nc_H3 N kd_find kd_build eig points size normals curvatures k nbi0 es0 a0 a1 a2 v00 v01 v02 v10 v11 v12 v20 v21 v22 =
+    src_compute_kd_nc_H3 N kd_find eig points size (kd_build size points) normals curvatures k nbi0 es0 a0 a1 a2 v00 v01 v02 v10 v11 v12 v20 v21 v22) /\
+  (forall (kd_find : K -> T * T * T * T -> Z -> list Z) kd_build points size normals curvatures reliab k nbi0 es0 a0 a1 a2 v00 v01 v02 v10 v11 v12 v20 v21 v22,
+    src_compute_ncr_H3 N kd_find kd_build eig points size normals curvatures reliab k nbi0 es0 a0 a1 a2 v00 v01 v02 v10 v11 v12 v20 v21 v22 =
+    src_compute_kd_ncr_H3 N kd_find eig points size (kd_build size points) normals curvatures reliab k nbi0 es0 a0 a1 a2 v00 v01 v02 v10 v11 v12 v20 v21 v22).
+Proof.
+  intros T N K eig. repeat split; intros.
+  - apply tie_compute_n_V2.
+  - apply tie_compute_nc_V2.
+  - apply tie_compute_ncr_V2.
+  - apply tie_compute_n_V3.
+  - apply tie_compute_nc_V3.
+  - apply tie_compute_ncr_V3.
+  - apply tie_compute_n_H2.
+  - apply tie_compute_nc_H2.
+  - apply tie_compute_ncr_H2.
+  - apply tie_compute_n_H3.
+  - apply tie_compute_nc_H3.
+  - apply tie_compute_ncr_H3.
+Qed.
+Print Assumptions C09_source_tie_compute_own_kdtree.
+
+(* COROLLARY, directly about the generated terms over the reals: under the eigen-solver contract for the covariance of every
+   neighbourhood, and k indexes returned by every kd-tree query, every normal written by compute() has unit Cartesian length and
+   n . p <= 0 — for the four point types *)
+Theorem C09_source_normals_unit_and_facing :
+  (forall (K : Type) (eig : list (list R) -> list R * list (list R)) (kd_find : K -> R * R -> Z -> list Z) points size kd normals curvatures reliab k nbi0 es0 a0 a1 v00 v01 v10 v11,
+  (0 <= k)%Z -> (0 <= size)%Z -> (forall p, length (kd_find kd p k) = Z.to_nat k) ->
+  (forall j, (0 <= j < size)%Z ->
+     let C := covariance ROps 2 2 (map (fun i => l2 (points i)) (kd_find kd (points j) k)) in eig_contract 2 C (eig C)) ->
+  let '(nrm, cv, rl, _, _, _, _, _, _, _, _) :=
+    src_compute_kd_ncr_V2 ROps kd_find eig points size kd normals curvatures reliab k nbi0 es0 a0 a1 v00 v01 v10 v11 in
+  forall j, (0 <= j < size)%Z ->
+    let n := firstn 2 (l2 (nrm j)) in
+    vdot ROps n n = 1 /\ vdot ROps n (firstn 2 (l2 (points j))) <= 0) /\
+  (forall (K : Type) (eig : list (list R) -> list R * list (list R)) (kd_find : K -> R * R * R -> Z -> list Z) points size kd normals curvatures reliab k nbi0 es0 a0 a1 a2 v00 v01 v02 v10 v11 v12 v20 v21 v22,
+  (0 <= k)%Z -> (0 <= size)%Z -> (forall p, length (kd_find kd p k) = Z.to_nat k) ->
+  (forall j, (0 <= j < size)%Z ->
+     let C := covariance ROps 3 3 (map (fun i => l3 (points i)) (kd_find kd (points j) k)) in eig_contract 3 C (eig C)) ->
+  let '(nrm, cv, rl, _, _, _, _, _, _, _, _, _, _, _, _, _, _) :=
+    src_compute_kd_ncr_V3 ROps kd_find eig points size kd normals curvatures reliab k nbi0 es0 a0 a1 a2 v00 v01 v02 v10 v11 v12 v20 v21 v22 in
+  forall j, (0 <= j < size)%Z ->
+    let n := firstn 3 (l3 (nrm j)) in
+    vdot ROps n n = 1 /\ vdot ROps n (firstn 3 (l3 (points j))) <= 0) /\
+  (forall (K : Type) (eig : list (list R) -> list R * list (list R)) (kd_find : K -> R * R * R -> Z -> list Z) points size kd normals curvatures reliab k nbi0 es0 a0 a1 v00 v01 v10 v11,
+  (0 <= k)%Z -> (0 <= size)%Z -> (forall p, length (kd_find kd p k) = Z.to_nat k) ->
+  (forall j, (0 <= j < size)%Z ->
+     let C := covariance ROps 2 3 (map (fun i => l3 (points i)) (kd_find kd (points j) k)) in eig_contract 2 C (eig C)) ->
+  let '(nrm, cv, rl, _, _, _, _, _, _, _, _) :=
+    src_compute_kd_ncr_H2 ROps kd_find eig points size kd normals curvatures reliab k nbi0 es0 a0 a1 v00 v01 v10 v11 in
+  forall j, (0 <= j < size)%Z ->
+    let n := firstn 2 (l3 (nrm j)) in
+    vdot ROps n n = 1 /\ vdot ROps n (firstn 2 (l3 (points j))) <= 0) /\
+  (forall (K : Type) (eig : list (list R) -> list R * list (list R)) (kd_find : K -> R * R * R * R -> Z -> list Z) points size kd normals curvatures reliab k nbi0 es0 a0 a1 a2 v00 v01 v02 v10 v11 v12 v20 v21 v22,
+  (0 <= k)%Z -> (0 <= size)%Z -> (forall p, length (kd_find kd p k) = Z.to_nat k) ->
+  (forall j, (0 <= j < size)%Z ->
+     let C := covariance ROps 3 4 (map (fun i => l4 (points i)) (kd_find kd (points j) k)) in eig_contract 3 C (eig C)) ->
+  let '(nrm, cv, rl, _, _, _, _, _, _, _, _, _, _, _, _, _, _) :=
+    src_compute_kd_ncr_H3 ROps kd_find eig points size kd normals curvatures reliab k nbi0 es0 a0 a1 a2 v00 v01 v02 v10 v11 v12 v20 v21 v22 in
+  forall j, (0 <= j < size)%Z ->
+    let n := firstn 3 (l4 (nrm j)) in
+    vdot ROps n n = 1 /\ vdot ROps n (firstn 3 (l4 (points j))) <= 0).
+Proof.
+  repeat split.
+  - exact (@src_normals_unit_facing_V2).
+  - exact (@src_normals_unit_facing_V3).
+  - exact (@src_normals_unit_facing_H2).
+  - exact (@src_normals_unit_facing_H3).
+Qed.
+Print Assumptions C09_source_normals_unit_and_facing.
+
+(* ROTATION OF THE WHOLE CLOUD, on the terms generated from the source: two runs of compute(), on a cloud and on the same cloud
+   turned about the sensor by Rm ([points' i] = [points i] with Rm applied to the Cartesian part, w kept).  A rotation keeps
+   distances, so an exact k-nearest-neighbour search returns the same indexes for both clouds unless two distances tie: that is
+   the premise on [kd_find] (the search is C08's; the premise is not derived here).  Then, for every point whose lambda_0 is
+   simple: the curvature is unchanged and the new normal is +- the rotated one, with sign + whenever n . p <> 0. *)
+Theorem C09_source_rotation_equivariance :
+  (forall (K : Type) (eig : list (list R) -> list R * list (list R)) (kd_find : K -> R * R -> Z -> list Z) points points' size kd kd'
+      normals normals' curvatures curvatures' reliab reliab' k nbi0 es0 a0 a1 v00 v01 v10 v11 nbi0' es0' a0' a1' v00' v01' v10' v11' Rm,
+  is_rotation 2 Rm -> (0 <= k)%Z -> (0 <= size)%Z ->
+  (forall t p, length (kd_find t p k) = Z.to_nat k) ->
+  (forall i, SrcTieC09.l2 (points' i) = rot_point 2 Rm (SrcTieC09.l2 (points i))) ->
+  (forall j, (0 <= j < size)%Z -> kd_find kd' (points' j) k = kd_find kd (points j) k) ->
+  (forall j, (0 <= j < size)%Z ->
+     let C := covariance ROps 2 2 (map (fun i => SrcTieC09.l2 (points i)) (kd_find kd (points j) k)) in eig_contract 2 C (eig C)) ->
+  (forall j, (0 <= j < size)%Z ->
+     let C := covariance ROps 2 2 (map (fun i => SrcTieC09.l2 (points' i)) (kd_find kd' (points' j) k)) in eig_contract 2 C (eig C)) ->
+  let '(nrm, cv, rl, _, _, _, _, _, _, _, _) :=
+    src_compute_kd_ncr_V2 ROps kd_find eig points size kd normals curvatures reliab k nbi0 es0 a0 a1 v00 v01 v10 v11 in
+  let '(nrm', cv', rl', _, _, _, _, _, _, _, _) :=
+    src_compute_kd_ncr_V2 ROps kd_find eig points' size kd' normals' curvatures' reliab' k nbi0' es0' a0' a1' v00' v01' v10' v11' in
+  forall j, (0 <= j < size)%Z ->
+    let lam := fst (eig (covariance ROps 2 2 (map (fun i => SrcTieC09.l2 (points i)) (kd_find kd (points j) k)))) in
+    vcoord ROps lam 0 < vcoord ROps lam 1 ->
+    let n := firstn 2 (SrcTieC09.l2 (nrm j)) in
+    let n' := firstn 2 (SrcTieC09.l2 (nrm' j)) in
+    (n' = rot_apply 2 Rm n \/ n' = vneg ROps (rot_apply 2 Rm n)) /\
+    (vdot ROps n (firstn 2 (SrcTieC09.l2 (points j))) <> 0 -> n' = rot_apply 2 Rm n) /\
+    cv' j = cv j) /\
+  (forall (K : Type) (eig : list (list R) -> list R * list (list R)) (kd_find : K -> R * R * R -> Z -> list Z) points points' size kd kd'
+      normals normals' curvatures curvatures' reliab reliab' k nbi0 es0 a0 a1 a2 v00 v01 v02 v10 v11 v12 v20 v21 v22 nbi0' es0' a0' a1' a2' v00' v01' v02' v10' v11' v12' v20' v21' v22' Rm,
+  is_rotation 3 Rm -> (0 <= k)%Z -> (0 <= size)%Z ->
+  (forall t p, length (kd_find t p k) = Z.to_nat k) ->
+  (forall i, SrcTieC09.l3 (points' i) = rot_point 3 Rm (SrcTieC09.l3 (points i))) ->
+  (forall j, (0 <= j < size)%Z -> kd_find kd' (points' j) k = kd_find kd (points j) k) ->
+  (forall j, (0 <= j < size)%Z ->
+     let C := covariance ROps 3 3 (map (fun i => SrcTieC09.l3 (points i)) (kd_find kd (points j) k)) in eig_contract 3 C (eig C)) ->
+  (forall j, (0 <= j < size)%Z ->
+     let C := covariance ROps 3 3 (map (fun i => SrcTieC09.l3 (points' i)) (kd_find kd' (points' j) k)) in eig_contract 3 C (eig C)) ->
+  let '(nrm, cv, rl, _, _, _, _, _, _, _, _, _, _, _, _, _, _) :=
+    src_compute_kd_ncr_V3 ROps kd_find eig points size kd normals curvatures reliab k nbi0 es0 a0 a1 a2 v00 v01 v02 v10 v11 v12 v20 v21 v22 in
+  let '(nrm', cv', rl', _, _, _, _, _, _, _, _, _, _, _, _, _, _) :=
+    src_compute_kd_ncr_V3 ROps kd_find eig points' size kd' normals' curvatures' reliab' k nbi0' es0' a0' a1' a2' v00' v01' v02' v10' v11' v12' v20' v21' v22' in
+  forall j, (0 <= j < size)%Z ->
+    let lam := fst (eig (covariance ROps 3 3 (map (fun i => SrcTieC09.l3 (points i)) (kd_find kd (points j) k)))) in
+    vcoord ROps lam 0 < vcoord ROps lam 1 ->
+    let n := firstn 3 (SrcTieC09.l3 (nrm j)) in
+    let n' := firstn 3 (SrcTieC09.l3 (nrm' j)) in
+    (n' = rot_apply 3 Rm n \/ n' = vneg ROps (rot_apply 3 Rm n)) /\
+    (vdot ROps n (firstn 3 (SrcTieC09.l3 (points j))) <> 0 -> n' = rot_apply 3 Rm n) /\
+    cv' j = cv j) /\
+  (forall (K : Type) (eig : list (list R) -> list R * list (list R)) (kd_find : K -> R * R * R -> Z -> list Z) points points' size kd kd'
+      normals normals' curvatures curvatures' reliab reliab' k nbi0 es0 a0 a1 v00 v01 v10 v11 nbi0' es0' a0' a1' v00' v01' v10' v11' Rm,
+  is_rotation 2 Rm -> (0 <= k)%Z -> (0 <= size)%Z ->
+  (forall t p, length (kd_find t p k) = Z.to_nat k) ->
+  (forall i, SrcTieC09.l3 (points' i) = rot_point 2 Rm (SrcTieC09.l3 (points i))) ->
+  (forall j, (0 <= j < size)%Z -> kd_find kd' (points' j) k = kd_find kd (points j) k) ->
+  (forall j, (0 <= j < size)%Z ->
+     let C := covariance ROps 2 3 (map (fun i => SrcTieC09.l3 (points i)) (kd_find kd (points j) k)) in eig_contract 2 C (eig C)) ->
+  (forall j, (0 <= j < size)%Z ->
+     let C := covariance ROps 2 3 (map (fun i => SrcTieC09.l3 (points' i)) (kd_find kd' (points' j) k)) in eig_contract 2 C (eig C)) ->
+  let '(nrm, cv, rl, _, _, _, _, _, _, _, _) :=
+    src_compute_kd_ncr_H2 ROps kd_find eig points size kd normals curvatures reliab k nbi0 es0 a0 a1 v00 v01 v10 v11 in
+  let '(nrm', cv', rl', _, _, _, _, _, _, _, _) :=
+    src_compute_kd_ncr_H2 ROps kd_find eig points' size kd' normals' curvatures' reliab' k nbi0' es0' a0' a1' v00' v01' v10' v11' in
+  forall j, (0 <= j < size)%Z ->
+    let lam := fst (eig (covariance ROps 2 3 (map (fun i => SrcTieC09.l3 (points i)) (kd_find kd (points j) k)))) in
+    vcoord ROps lam 0 < vcoord ROps lam 1 ->
+    let n := firstn 2 (SrcTieC09.l3 (nrm j)) in
+    let n' := firstn 2 (SrcTieC09.l3 (nrm' j)) in
+    (n' = rot_apply 2 Rm n \/ n' = vneg ROps (rot_apply 2 Rm n)) /\
+    (vdot ROps n (firstn 2 (SrcTieC09.l3 (points j))) <> 0 -> n' = rot_apply 2 Rm n) /\
+    cv' j = cv j) /\
+  (forall (K : Type) (eig : list (list R) -> list R * list (list R)) (kd_find : K -> R * R * R * R -> Z -> list Z) points points' size kd kd'
+      normals normals' curvatures curvatures' reliab reliab' k nbi0 es0 a0 a1 a2 v00 v01 v02 v10 v11 v12 v20 v21 v22 nbi0' es0' a0' a1' a2' v00' v01' v02' v10' v11' v12' v20' v21' v22' Rm,
+  is_rotation 3 Rm -> (0 <= k)%Z -> (0 <= size)%Z ->
+  (forall t p, length (kd_find t p k) = Z.to_nat k) ->
+  (forall i, SrcTieC09.l4 (points' i) = rot_point 3 Rm (SrcTieC09.l4 (points i))) ->
+  (forall j, (0 <= j < size)%Z -> kd_find kd' (points' j) k = kd_find kd (points j) k) ->
+  (forall j, (0 <= j < size)%Z ->
+     let C := covariance ROps 3 4 (map (fun i => SrcTieC09.l4 (points i)) (kd_find kd (points j) k)) in eig_contract 3 C (eig C)) ->
+  (forall j, (0 <= j < size)%Z ->
+     let C := covariance ROps 3 4 (map (fun i => SrcTieC09.l4 (points' i)) (kd_find kd' (points' j) k)) in eig_contract 3 C (eig C)) ->
+  let '(nrm, cv, rl, _, _, _, _, _, _, _, _, _, _, _, _, _, _) :=
+    src_compute_kd_ncr_H3 ROps kd_find eig points size kd normals curvatures reliab k nbi0 es0 a0 a1 a2 v00 v01 v02 v10 v11 v12 v20 v21 v22 in
+  let '(nrm', cv', rl', _, _, _, _, _, _, _, _, _, _, _, _, _, _) :=
+    src_compute_kd_ncr_H3 ROps kd_find eig points' size kd' normals' curvatures' reliab' k nbi0' es0' a0' a1' a2' v00' v01' v02' v10' v11' v12' v20' v21' v22' in
+  forall j, (0 <= j < size)%Z ->
+    let lam := fst (eig (covariance ROps 3 4 (map (fun i => SrcTieC09.l4 (points i)) (kd_find kd (points j) k)))) in
+    vcoord ROps lam 0 < vcoord ROps lam 1 ->
+    let n := firstn 3 (SrcTieC09.l4 (nrm j)) in
+    let n' := firstn 3 (SrcTieC09.l4 (nrm' j)) in
+    (n' = rot_apply 3 Rm n \/ n' = vneg ROps (rot_apply 3 Rm n)) /\
+    (vdot ROps n (firstn 3 (SrcTieC09.l4 (points j))) <> 0 -> n' = rot_apply 3 Rm n) /\
+    cv' j = cv j).
+Proof.
+  repeat split.
+  - exact (@src_rotation_equivariance_V2).
+  - exact (@src_rotation_equivariance_V3).
+  - exact (@src_rotation_equivariance_H2).
+  - exact (@src_rotation_equivariance_H3).
+Qed.
+Print Assumptions C09_source_rotation_equivariance.
+
+(* non-vacuity of the tie hypotheses: the real dictionary reads the literals as required *)
+Example C09_NormLits_satisfiable : NormLits ROps.
+Proof. exact NormLits_R. Qed.
 
 (* --- non-vacuity: the contract is satisfiable on a concrete cloud, and the theorems apply to it --- *)
 Example C09_contract_satisfiable :
@@ -226,19 +666,23 @@ Proof.
             forall i j, (i < 3)%nat -> (j < 3)%nat -> P i j) as three.
   { intros P ? ? ? ? ? ? ? ? ? i j Hi Hj.
     destruct i as [|[|[|i]]]; try lia; destruct j as [|[|[|j]]]; try lia; assumption. }
-  apply C09_rotation_equivariance.
-  - right; reflexivity.
-  - split; apply three; cbn; lra.
-  - lia.
-  - intros q [<-|[<-|[<-|[<-|[]]]]]; reflexivity.
-  - exact C09_contract_satisfiable.
-  - unfold eig_contract, wit_eig. cbn [fst snd]. repeat split; try reflexivity.
+  set (Rm := [[0; -1; 0]; [1; 0; 0]; [0; 0; 1]]).
+  assert (D : 3%nat = 2%nat \/ 3%nat = 3%nat) by (right; reflexivity).
+  assert (HRm : is_rotation 3 Rm) by (split; apply three; cbn; lra).
+  assert (Hl : forall q, In q wit_nb -> length q = 4%nat) by (intros q [<-|[<-|[<-|[<-|[]]]]]; reflexivity).
+  assert (Hc' : eig_contract 3 (covariance ROps 3 4 (map (rot_point 3 Rm) wit_nb))
+                  (wit_eig (covariance ROps 3 4 (map (rot_point 3 Rm) wit_nb)))).
+  { unfold eig_contract, wit_eig. cbn [fst snd]. repeat split; try reflexivity.
     + intros c Hc. destruct c as [|[|[|c]]]; try lia; reflexivity.
     + apply three; cbn; lra.
     + apply three; cbn; lra.
     + intros c Hc. destruct c as [|[|c]]; try lia; cbn; lra.
-    + apply three; cbn; lra.
-  - cbn; lra.
-  - unfold estimate_point, wit_eig. cbn [e_normal nth]. unfold write_normal, flip_cart.
-    cbn [firstn skipn app wit_p]. destruct (ngtb ROps _ _); cbn; lra.
+    + apply three; cbn; lra. }
+  assert (Gap : vcoord ROps (e_lambda (estimate_point ROps wit_eig false 3 4 wit_p wit_nb [0; 0; 0; 1])) 0
+              < vcoord ROps (e_lambda (estimate_point ROps wit_eig false 3 4 wit_p wit_nb [0; 0; 0; 1])) 1) by (cbn; lra).
+  destruct (C09_rotation_equivariance wit_eig 3 4 wit_p wit_nb [0; 0; 0; 1] [0; 0; 0; 1] Rm D HRm ltac:(lia) Hl
+              C09_contract_satisfiable Hc' Gap) as (_ & A2 & A3 & A4).
+  split; [apply A2|split; [exact A3|exact A4]].
+  unfold estimate_point, wit_eig. cbn [e_normal nth]. unfold write_normal, flip_cart.
+  cbn [firstn skipn app wit_p]. destruct (ngtb ROps _ _); cbn; lra.
 Qed.
